@@ -173,43 +173,68 @@ def run(ctx):
     # ------------------------------------------------------------ importer
     imp, rd, _imp = p.func("JsonImporter", "import_"), p.func("JsonImporter", "read"), p.func("JsonImporter", "__import")
     ctx.touch(_imp)
-    callees = {}
+    helper_params = _imp.posparams[1:]
+    results = {}
     for f, jf, argname in ((imp, "json.loads", "data"), (rd, "json.load", "filehandle")):
         ctx.touch(f)
-        calls = find_calls(f, lambda c: norm(c.func) == jf)
-        if len(calls) != 1:
-            ctx.viol("J1", f, f.node, "%s does not call %s exactly once" % (f.qual, jf), construct="%s: %s call" % (f.qual, jf))
-            continue
-        c = calls[0]
-        if _star_kwargs(c, f.selfname) and len(c.keywords) == 1 and [norm(a) for a in c.args] == [argname]:
-            ctx.inst("J1", f, c, "%s(%s, **self.kwargs)" % (jf, argname))
-        else:
-            ctx.viol("J1", f, c, "%s is not called as %s(%s, **self.kwargs)" % (jf, jf, argname), construct="%s: %s arguments" % (f.qual, jf))
+        argname = f.posparams[1]
         rets = [r for r in walk_own(f.node) if isinstance(r, ast.Return)]
         outer = rets[0].value if len(rets) == 1 else None
-        src = c
-        if isinstance(outer, ast.Call) and outer.args and isinstance(outer.args[0], ast.Name):
-            for n in walk_own(f.node):
-                if isinstance(n, ast.Assign) and any(isinstance(t, ast.Name) and t.id == outer.args[0].id for t in n.targets) and n.value is c:
-                    src = outer.args[0]
-        if isinstance(outer, ast.Call) and len(outer.args) == 1 and (outer.args[0] is c or outer.args[0] is src) and not outer.keywords:
-            callees[f.srcname] = norm(outer.func)
-            ctx.inst("J1", f, outer, "parsed data handed to %s" % norm(outer.func))
+        direct = find_calls(f, lambda c: norm(c.func) == jf)
+        parsed_via = None
+        if len(direct) == 1:
+            c = direct[0]
+            if _star_kwargs(c, f.selfname) and len(c.keywords) == 1 and [norm(a) for a in c.args] == [argname]:
+                ctx.inst("J1", f, c, "%s(%s, **self.kwargs)" % (jf, argname))
+            else:
+                ctx.viol("J1", f, c, "%s is not called as %s(%s, **self.kwargs)" % (jf, jf, argname), construct="%s: %s arguments" % (f.qual, jf))
+            src = c
+            if isinstance(outer, ast.Call) and outer.args and isinstance(outer.args[0], ast.Name):
+                for n in walk_own(f.node):
+                    if isinstance(n, ast.Assign) and any(isinstance(t, ast.Name) and t.id == outer.args[0].id for t in n.targets) and n.value is c:
+                        src = outer.args[0]
+            if isinstance(outer, ast.Call) and len(outer.args) == 1 and (outer.args[0] is c or outer.args[0] is src) and not outer.keywords \
+                    and norm(outer.func) == "%s.__import" % f.selfname:
+                parsed_via = "direct"
+                ctx.inst("J1", f, outer, "parsed data handed to self.__import")
+            else:
+                ctx.viol("J1", f, f.node, "%s does not return self.__import(<parsed json>)" % f.qual, construct="%s: return value" % f.qual)
+        elif isinstance(outer, ast.Call) and norm(outer.func) == "%s.__import" % f.selfname and not outer.keywords and len(outer.args) == 2 \
+                and len(helper_params) == 2 and norm(outer.args[0]) == jf and norm(outer.args[1]) == argname:
+            # the json function is passed to the private helper, which applies it: self.__import(json.loads, data)
+            lp, sp = helper_params
+            applied = [c for c in walk_own(_imp.node) if isinstance(c, ast.Call) and isinstance(c.func, ast.Name) and c.func.id == lp]
+            okh = len(applied) == 1 and [norm(a) for a in applied[0].args] == [sp] and _star_kwargs(applied[0], _imp.selfname) and len(applied[0].keywords) == 1
+            if okh:
+                parsed_via = "helper"
+                ctx.inst("J1", f, outer, "%s is applied by the shared helper as load(source, **self.kwargs)" % jf)
+            else:
+                ctx.viol("J1", f, outer, "the helper does not apply the json function as load(source, **self.kwargs)", construct="%s: helper application" % f.qual)
         else:
-            ctx.viol("J1", f, f.node, "%s does not return <importer>(<parsed json>)" % f.qual, construct="%s: return value" % f.qual)
-    if len(set(callees.values())) > 1 or (callees and set(callees.values()) != {"self.__import"}):
-        ctx.viol("J1", rd, rd.node, "import_() and read() do not hand their data to the same self.__import: %s" % callees,
-                 construct="import_/read importers differ")
-    di, di_stmt = _fallback_var(_imp, typer.cfg_of(_imp), "dictimporter", "DictImporter")
+            ctx.viol("J1", f, f.node, "%s does not parse its argument with %s(%s, **self.kwargs) and hand the result to self.__import" % (f.qual, jf, argname),
+                     construct="%s: %s call" % (f.qual, jf))
+        results[f.srcname] = parsed_via
+    if len(set(results.values())) > 1:
+        ctx.viol("J1", rd, rd.node, "import_() and read() reach the dict importer in different ways: %s" % results, construct="import_/read differ")
+    icfg = typer.cfg_of(_imp)
+    di, di_stmt = _fallback_var(_imp, icfg, "dictimporter", "DictImporter")
     if di is not None:
         ctx.inst("J3", _imp, di_stmt, "supplied dictimporter if given, else DictImporter()")
     rets = [r for r in walk_own(_imp.node) if isinstance(r, ast.Return)]
-    datap = _imp.posparams[1]
+    from .common import resolve_local
+    good = False
     if di and len(rets) == 1 and isinstance(rets[0].value, ast.Call) and norm(rets[0].value.func) == "%s.import_" % di \
-            and [norm(a) for a in rets[0].value.args] == [datap] and not rets[0].value.keywords:
+            and len(rets[0].value.args) == 1 and not rets[0].value.keywords:
+        a0 = rets[0].value.args[0]
+        if results.get("import_") == "helper":
+            r0 = resolve_local(_imp, a0)
+            good = isinstance(r0, ast.Call) and isinstance(r0.func, ast.Name) and r0.func.id == helper_params[0]
+        else:
+            good = norm(a0) == _imp.posparams[1]
+    if good:
         ctx.inst("J3", _imp, rets[0], "imports the parsed data unchanged with that importer")
     else:
-        ctx.viol("J3", _imp, _imp.node, "__import does not return (self.dictimporter or DictImporter()).import_(data)", construct="JsonImporter.__import")
+        ctx.viol("J3", _imp, _imp.node, "__import does not return (self.dictimporter or DictImporter()).import_(<parsed data>)", construct="JsonImporter.__import")
     rule_optint_truthiness(ctx, typer, {JE, JI}, rule="J3")
     ctx.floor("J1", 6)
     ctx.floor("J2", 6)
